@@ -407,8 +407,13 @@ def body_circle(case):
     if a > 5.0:
         return {"labels": ["triple_wider_than_5_deg"], "refused": "triple wider than 5 deg: not asserted"}
     ar = math.radians(a)
-    hi = 2.0 / math.sqrt(3.0) * a * (1.0 + ar * ar / 48.0) + TOL
-    lo_ = a - TOL
+    # a-priori forward error of any side-based formula for the circumscribed circle: the factors
+    # (a + b - c) ... cancel down to the shortest side, so an error of 1e-14 deg in a side is
+    # amplified by longest / shortest side (2e7 for a body 1e-7 deg from another in a 2.5 deg triple)
+    short = min(x for x in seps if x > 0.0) if a > 0.0 else 1.0
+    slack = TOL + 1e-13 * a * (a / short)
+    hi = 2.0 / math.sqrt(3.0) * a * (1.0 + ar * ar / 48.0) + slack
+    lo_ = a - slack
     if d != d or not (lo_ <= d <= hi):
         raise Violation("circle_diameter(%r) = %r, not within [max separation %r, 2/sqrt(3) x = %r]"
                         % (pts, d, a, 2.0 / math.sqrt(3.0) * a), site=site, kind="circle",
